@@ -97,6 +97,18 @@ func genC05(r *Rng, tier string) *C05Scn {
 	}
 	c.Start = r.PickS("fresh", "built", "loaded", "loaded")
 	c.StartSrc = r.Intn(n)
+	allNil := true
+	for i := range c.Inputs {
+		if c.Inputs[i].ValIDs != nil {
+			allNil = false
+		}
+	}
+	if allNil && r.Chance(0.35) {
+		// the zero value as receiver (var st trie.SlimTrie, the proto.Message
+		// idiom). It has no encoder, so it is only comparable with its source
+		// when no stream carries values.
+		c.Start = "zero"
+	}
 	hl := r.Range(1, 4)
 	fx := loadFixtures()
 	for i := 0; i < hl; i++ {
@@ -542,7 +554,11 @@ func (c *C05Scn) lifecycle(y func(), pr *c05Probe) (outs []string, viol *Violati
 		}
 	}
 	if inst == nil {
-		inst = fresh(enc)
+		if c.Start == "zero" {
+			inst = &trie.SlimTrie{}
+		} else {
+			inst = fresh(enc)
+		}
 	}
 	yield()
 
